@@ -318,6 +318,29 @@ Lemma wrap_chain_terminates : forall opsl k rows, Forall ops_nofatal opsl ->
   forall cf, star c0 cf -> crashed cf = false /\ (quiescent cf -> all_done (cells cf)).
 Proof. intros. apply chain_terminates; auto using wrap_chain_good, wrap_chain_fresh, wrap_chain_nofault. Qed.
 
+(* one tick of the live tail, any in-process stages *)
+Lemma ws_handler_good : good_node ws_handler_node.
+Proof. intros canc s m. simpl. destruct canc; discriminate. Qed.
+Lemma ws_handler_nofault : nofault_node ws_handler_node.
+Proof. split; [|reflexivity]. intros canc s m _. simpl. destruct canc; [exact I|reflexivity]. Qed.
+
+Lemma tail_tick_terminates : forall opsl rows, Forall ops_nofatal opsl ->
+  let c0 := init_config (map MRow rows) (tail_tick opsl) in
+  Acc (fun c' c1 : configT => step c1 c') c0 /\
+  forall cf, star c0 cf -> crashed cf = false /\ (quiescent cf -> all_done (cells cf)).
+Proof.
+  intros opsl rows H. apply chain_terminates; unfold tail_tick.
+  - fcons; [apply scan_good|]. apply Forall_app. split.
+    + apply Forall_map. apply Forall_forall. intros o _. simpl. apply (wrap_good true).
+    + fcons; [apply enc_good|]. fcons; [apply ws_handler_good|constructor].
+  - fcons; [apply scan_nofault|]. apply Forall_app. split.
+    + apply Forall_map. eapply Forall_impl; [|exact H]. intros o Ho. simpl. apply wrap_nofault. exact Ho.
+    + fcons; [apply enc_nofault|]. fcons; [apply ws_handler_nofault|constructor].
+  - fcons; [split; reflexivity|]. apply Forall_app. split.
+    + apply Forall_map. apply Forall_forall. intros o _. split; reflexivity.
+    + fcons; [split; reflexivity|]. fcons; [split; reflexivity|constructor].
+Qed.
+
 (* the executable run used by the correspondence is one of the schedules the theorems speak about *)
 Lemma run_is_a_schedule : forall fuel canc (l : list (cell st msg)) r l',
   run fuel canc l = (r, l') -> r <> RFuel ->
